@@ -31,6 +31,7 @@ EXPLANATION = (
     "over its keys()/items(), and no sort key that reads .uuid; R3.7 = C04's R4.2 (an output switch guards logging statements "
     "only) and R4.1 (process-wide state: who may write it, re-established by every build) applied here; R3.5 also follows draws hidden "
     "behind properties evaluated under a log switch; R3.1 also inventories sources handed over uncalled (default_factory=np.random.default_rng). R3.8 the numeric settings this property depends on are never tested by truthiness (`x or default`, `if x:`) - 0 is a legal value for them. "
+    "R3.9 = C10's R10.3 (the reward-sharing order comes from a DFS over sets of agent names; only a correct topological order is independent of their iteration order) applied here. "
     "NOT decided: equality "
     "of trajectories, float reproducibility, behaviour of third-party libraries."
 )
